@@ -256,9 +256,9 @@ class Run:
         return graph
 
     # -- static ranks the model cannot compute (prefix_priority is not modelled) -----------
-    def ranks(self):
+    def ranks(self, nodes=None):
         from functools import cmp_to_key
-        nodes = self.order + list(self.flat.values()) + [self.root]
+        nodes = nodes if nodes is not None else self.order + list(self.flat.values()) + [self.root]
         srt = sorted(nodes, key=cmp_to_key(lambda x, y: self.m.TestNode.prefix_priority(x.long_prefix, y.long_prefix)))
         rank, r, prev = {}, -1, None
         for n in srt:
@@ -293,10 +293,13 @@ class Run:
 
         async def run_test_task(runner, node):
             wid = node.params["nets"]
-            if id(node) in run.nidx:
-                key = (str(run.classes[node.bridged_form]), wid)
+            if node.prefix.split("r")[0] == "0" and node.params["name"].startswith("all.internal.stateless.noop."):
+                # the creation pre-step: named after the class of its object root
+                root_node = [x for x in run.graph.nodes if not x.is_flat() and x.params.get("nets") == wid and
+                             x.params.get("object_root") == node.params.get("object_root")][0]
+                key = ("pre:@" + root_node.bridged_form, wid)
             else:
-                key = ("pre:" + str(run.cur_pre[wid]), wid)
+                key = ("@" + node.bridged_form, wid)
             k = run.exec_count.get(wid, 0)
             run.exec_count[wid] = k + 1
             sched = run.spec["schedule"].get(wid, [])
@@ -380,7 +383,7 @@ class Run:
             root_node = [x for x in run.graph.nodes if not x.is_flat() and x.params.get("nets") == wid and
                          x.params.get("object_root") == params.get("object_root")][0]
             n.objects = list(root_node.objects)
-            run.cur_pre[wid] = run.classes[root_node.bridged_form]
+            run.cur_pre[wid] = root_node.bridged_form
             return n
 
         def parse_paths_to_object_roots(graph_self, test_node, test_object, params=None):
@@ -430,7 +433,9 @@ class Run:
         m.TestRunner.run_test_task = run_test_task
         m.node_mod.door = Door
         m.TestWorker.get_session = lambda self: None
-        m.TestGraph.parse_node_from_object = staticmethod(parse_node_from_object)
+        if not getattr(self, "static_after", False):
+            # (runs that expand flat nodes with the real parser keep the real function, also for the creation pre-step)
+            m.TestGraph.parse_node_from_object = staticmethod(parse_node_from_object)
         if getattr(self, "lazy", False):
             m.TestGraph.parse_paths_to_object_roots = parse_paths_to_object_roots
         m.graph_mod.asyncio = types.SimpleNamespace(sleep=vsleep_logged)
@@ -458,7 +463,8 @@ class Run:
     def execute(self, max_virtual=None):
         m = self.m
         self.build()
-        self.static_lines = spec_lines(self)
+        if not getattr(self, "static_after", False):
+            self.static_lines = spec_lines(self)
         self.install()
         loop = VirtualLoop()
         asyncio.set_event_loop(loop)
@@ -498,6 +504,8 @@ class Run:
             self.uninstall()
             loop.close()
             asyncio.set_event_loop(None)
+        if getattr(self, "static_after", False):
+            self.static_lines = spec_lines(self)
         self.results = [(t["name"].name, t["name"].uid, t["status"]) for t in runner.job.result.tests]
         self.verdict = runner.all_results_ok()
         return self.events
@@ -528,7 +536,7 @@ def spec_lines(run):
     nodes = (list(run.order) + list(run.flat.values()) + [run.root]) if lazy else list(run.graph.nodes)
     nidx = {id(n): i for i, n in enumerate(nodes)}
     classes = {}
-    rank = run.ranks()
+    rank = run.ranks(nodes)
     for i, n in enumerate(nodes):
         p = n.params
         c = classes.setdefault(n.bridged_form, len(classes))
@@ -547,7 +555,8 @@ def spec_lines(run):
             return ",".join(f"{a}:{b}" for a, b in l) or "-"
         lines.append(
             f"node {i} cls={c} owner={owner} name={p['name']} pfx={n.prefix} flags={flags} sets={pl(sets)} "
-            f"gets={pl(gets)} unset={pl(unset)} maxtries={p.get('max_tries', '-')} mct={p.get('max_concurrent_tries', '-')} "
+            f"gets={pl(gets)} unset={pl(unset)} maxtries={p.get('max_tries', '-')} "
+            f"mct={(run.spec['cfg'].get('max_concurrent_tries', '-') if getattr(run, 'static_after', False) else p.get('max_concurrent_tries', '-'))} "
             f"timeout={p.get('test_timeout', 3600)} shape={shape_of(p)} scope={','.join(p.get('pool_scope', '').split()) or '-'} "
             f"filter={p.get('pool_filter', 'reuse')} rerun={','.join(p.get_list('rerun_status', [])) or '-'} "
             f"stop={','.join(p.get_list('stop_status', [])) or '-'} rank={rank[id(n)]} objs={','.join(vms) or '-'}"
@@ -578,6 +587,10 @@ def spec_lines(run):
     if lazy:
         for n in run.order:
             lines.append(f"hidden {nidx[id(n)]}")
+    elif getattr(run, "static_after", False):
+        for n in nodes:
+            if not n.is_flat():
+                lines.append(f"hidden {nidx[id(n)]}")
     for loc, states in sorted(run.spec.get("pool", {}).items()):
         lines.append(f"pool {loc} " + ",".join(f"{a}:{b}" for a, b in states))
     lines.append("init")
@@ -609,7 +622,12 @@ def project(run, e):
     w, kind = e[0], e[1]
 
     def cname(c):
-        return c
+        # classes are recorded by bridged form and resolved to the index of the static description here
+        pre = c.startswith("pre:")
+        base = c[4:] if pre else c
+        if base.startswith("@"):
+            base = str(run.classes[base[1:]])
+        return ("pre:" if pre else "") + base
     if kind == "start":
         c = e[2]
         locs = ",".join(f"{vm}={v.replace(' ', '+')}" for vm, v in e[4]["locs"])
@@ -844,6 +862,8 @@ def run_case(spec, driver, monitors=MONITORS, max_virtual=200000, run_cls=None):
     outs = driver("drv_trav", lines)
     res["disagree"] = None
     res["overflow"] = r.overflow
+    if hasattr(r, "lazy_vs_eager"):
+        res["lazy_vs_eager"] = [[a, str(b)[:300], str(c)[:300]] for a, b, c in r.lazy_vs_eager()][:5]
     for i, (resume, evs) in enumerate(bl):
         got = " | ".join(canon(x) for x in outs[n0 + i].split(" | ") if x)
         want = " | ".join(evs)
